@@ -689,6 +689,8 @@ def run(chk):
     chk.guard(rule_r6, chk, m)
     chk.guard(rule_r7, chk, m)
     chk.guard(rule_r8, chk, m)
+    from .. import unused as _unused
+    chk.guard(_unused.apply, chk, "C09-R91")
     from .. import args as _args
     chk.guard(_args.apply, chk, "C09-R90", {'dates'}, 1)
     chk.assumptions = [
